@@ -225,13 +225,14 @@ fn build(b: &UBuild) -> (Pool<UObj>, usize) {
         UBuild::New(n) => (Pool::new(*n), *n),
         UBuild::FromConfig(n) => (Pool::from_config(&PoolConfig::new(*n)), *n),
         UBuild::FromVec(n) => {
-            let v: Vec<UObj> = (0..*n)
-                .map(|_| {
-                    let o = u(|w| w.new_obj());
-                    u(|w| w.objs[o.id].loc = ULoc::Queue);
-                    o
-                })
-                .collect();
+            // a Vec grown by push, with spare capacity (the limit is the number
+            // of elements, whatever the allocation)
+            let mut v: Vec<UObj> = Vec::with_capacity(*n + 3);
+            for _ in 0..*n {
+                let o = u(|w| w.new_obj());
+                u(|w| w.objs[o.id].loc = ULoc::Queue);
+                v.push(o);
+            }
             (Pool::from(v), *n)
         }
     }
